@@ -44,7 +44,7 @@ man = {
               "kind_free_text": "deterministic simulation with fault injection: seeded scheduler seam (PermSet), harness-owned clocks/resets (manual mode) and integer-femtosecond timeline mode, seeded schedule/fault generators, reference-model oracles, ddmin shrinking, JSON replay files"}],
  "checks": checks,
  "not_applicable": na,
- "notes": "All checks: exit 0 held / 1 VIOLATION / 2 harness error. VERIF_SEED, VERIF_TIER, VERIF_BUDGET_S, VERIF_JOBS honoured. Known findings: /verif/known_findings.json.",
+ "notes": "All checks: exit 0 held / 1 VIOLATION / 2 harness error. VERIF_SEED, VERIF_TIER, VERIF_BUDGET_S, VERIF_JOBS honoured. Known findings: /verif/known_findings.json. A run stopped by the 20 s CPU watchdog in a pool worker is executed again alone (200 s) before it is reported as a hang; counters in evidence coverage.watchdog (DESIGN.md sections 10 and 12).",
 }
 json.dump(man, open(os.path.join(HERE, "MANIFEST.json"), "w"), indent=1)
 print("claimed:", [c["property_id"] for c in checks]); print("n/a:", [n["property_id"] for n in na])
